@@ -132,8 +132,8 @@ func Rediscover(d *discovery.TargetsDiscovery, round map[string][]*targetgroup.G
 
 // ExploreAll does what the coordinator's explorer does with every active target between discovery rounds:
 // a scrape manager and an explorer that were given the SAME *ConfigInfo as the discovery (cmd/kvass wires them
-// so), the explorer told about the targets, and one probe per target. The probe function is replaced (no
-// network); everything before it - job lookup, building the target's URL from the job's settings - is real.
+// so), the explorer told about the targets, and one probe per target. The probe is the real one; its request ends in an in-memory
+// transport (no network).
 func ExploreAll(info *prom.ConfigInfo, d *discovery.TargetsDiscovery) []string {
 	sm := kscrape.New(true, quiet)
 	if err := sm.ApplyConfig(info); err != nil {
@@ -141,10 +141,14 @@ func ExploreAll(info *prom.ConfigInfo, d *discovery.TargetsDiscovery) []string {
 	}
 	e := explore.New(sm, prometheus.NewRegistry(), quiet)
 	var urls []string
-	e.VerifSetProbe(0, func(l logrus.FieldLogger, ji *kscrape.JobInfo, u string) (*kscrape.StatisticsSeriesResult, error) {
-		urls = append(urls, u)
-		return kscrape.NewStatisticsSeriesResult(), nil
-	})
+	for _, j := range info.Config.ScrapeConfigs {
+		if ji := sm.GetJob(j.JobName); ji != nil {
+			ji.Cli = &http.Client{Transport: roundTrip(func(req *http.Request) (*http.Response, error) {
+				urls = append(urls, req.URL.String())
+				return &http.Response{StatusCode: 200, Header: http.Header{"Content-Type": []string{"text/plain"}}, Body: io.NopCloser(strings.NewReader("")), Request: req}, nil
+			})}
+		}
+	}
 	_ = e.ApplyConfig(info)
 	e.UpdateTargets(d.ActiveTargets())
 	act := d.ActiveTargetsByHash()
@@ -159,6 +163,10 @@ func ExploreAll(info *prom.ConfigInfo, d *discovery.TargetsDiscovery) []string {
 	sort.Strings(urls)
 	return urls
 }
+
+type roundTrip func(req *http.Request) (*http.Response, error)
+
+func (f roundTrip) RoundTrip(req *http.Request) (*http.Response, error) { return f(req) }
 
 // Ship sends targets through JSON as the coordinator's POST does.
 func Ship(active map[uint64]*discovery.SDTargets) map[string][]*target.Target {
